@@ -1024,10 +1024,11 @@ MANIFEST = dict(
         "the exception type the helper raises. Necessary conditions of C09 "
         "('any size for constant and replicate'); equality with per-sequence pad-and-slice is decided by interpreting pad_variable and "
         "chunk_by_slices completely (buffer kernel included) over exact values: 3 modes x feature shapes (), (2,), (2, 2) x mixed lengths x "
-        "slices / pads of every kind (486 rows against padding written out by hand) - on that grid, not for all sizes."),
+        "slices / pads of every kind (486 rows against padding written out by hand) - on that grid, not for all sizes; the buffers the "
+        "kernels scatter into take the element type of the input (def-use rule on every allocation reaching a scatter / masked write)."),
     level_note="Trusted: python ast; torch.rand_like in [0,1); broadcasting semantics. F16 (replicate pad larger than the "
                "time dimension raised RuntimeError) was found by G23 and repaired; F20 (RandomShift rejected the documented pair of "
                "proportions: handler caught TypeError, helper raises ValueError) by G25 and repaired.",
-    technique="static analysis: index-range extent/cover analysis with guard dominance, min/max-linear term extraction compared with the specification over a finite grid, handler/raiser type agreement, literal-table agreement, argument binding, eval-path identity; interpretation of pad_variable / chunk_by_slices over exact tensor values (syntax tree only) compared with per-sequence padding on a finite grid; pad_masked_sequence interpreted over exact values for broadcasting masks",
+    technique="static analysis: index-range extent/cover analysis with guard dominance, min/max-linear term extraction compared with the specification over a finite grid, handler/raiser type agreement, literal-table agreement, argument binding, eval-path identity; interpretation of pad_variable / chunk_by_slices over exact tensor values (syntax tree only) compared with per-sequence padding on a finite grid; pad_masked_sequence interpreted over exact values for broadcasting masks; allocation-dtype def-use rule on the scatter buffers",
     design_ref="DESIGN.md section 4 C09, section 3 G23",
 )
